@@ -180,8 +180,12 @@ def verus_unit(unit, workdir, text, tier):
             raise Undecided('verus error that is not a verification failure in unit %s: %s' % (unit.NAME, msg))
         hit = []
         for s in d.get('spans', []):
+            lab = (s.get('label') or '')
+            # only the span that names the failed clause / assertion counts; "at the end of the function body" spans cover whole bodies
+            if not (lab.startswith('failed this') or (s.get('is_primary') and not lab.startswith('at '))):
+                continue
             for ln in range(s['line_start'], s['line_end'] + 1):
-                if ln in clause:
+                if ln in clause and clause[ln] not in hit:
                     hit.append(clause[ln])
         if not hit:
             prim = [s for s in d.get('spans', []) if s.get('is_primary')] or d.get('spans', [])
